@@ -162,8 +162,9 @@ Proof.
 Qed.
 
 Theorem read_run_gen en bc last_id chunks e stop : ending_ok e ->
-  fst (read_run en bc last_id chunks e stop)
-  = (firstn' stop (vis (en_conn en) (interp (mode_for (en_conn en)) last_id (concat chunks) e)), EndNormal)
+  (may_complete (bound_of en bc) (concat chunks) = true /\
+   fst (read_run en bc last_id chunks e stop)
+   = (firstn' stop (vis (en_conn en) (interp (mode_for (en_conn en)) last_id (concat chunks) e)), EndNormal))
   \/ exists off, In off (toolong_points (bound_of en bc) (stream_needs (concat chunks))) /\
        fst (read_run en bc last_id chunks e stop)
        = (firstn' stop (vis (en_conn en)
@@ -173,8 +174,8 @@ Theorem read_run_gen en bc last_id chunks e stop : ending_ok e ->
 Proof.
   intros He. set (conn := en_conn en). set (s := concat chunks).
   assert (Hm : md_dispatch_dirty (mode_for conn) = true) by (destruct conn; reflexivity).
-  destruct (parser_fields_gen en bc chunks e He) as [(LS & tl & Hrun & Hspec)|(LS & P & Hrun & Hpath & Hspec)].
-  - left. rewrite (read_run_of_fields en bc last_id chunks e stop _ _ Hrun). f_equal. fold conn.
+  destruct (parser_fields_gen en bc chunks e He) as [(LS & tl & Hrun & Hspec & Hcp & HB0)|(LS & P & Hrun & Hpath & Hspec)].
+  - left. split; [exact (cpath_may_complete _ _ HB0 Hcp)|]. rewrite (read_run_of_fields en bc last_id chunks e stop _ _ Hrun). f_equal. fold conn.
     rewrite (fold_lines conn stop LS (mkrl last_id [] [] false) 0 tl e); [|left; reflexivity|exact He|intros; apply Nat.le_0_l].
     change (st_of (mkrl last_id [] [] false)) with (w_init last_id).
     rewrite <- (Hspec (mode_for conn) last_id Hm).
